@@ -93,6 +93,9 @@ func (c01) Generate(idx int, r *core.Rand, tier string) core.Script {
 		}
 	}
 	nsig := w.Range(1, 6)
+	if w.Chance(1, 300) { // a long-lived signer
+		nsig = w.Range(40, 120)
+	}
 	for i := 0; i < nsig; i++ {
 		for w.Chance(1, 6) {
 			s.Content.Candidates = append(s.Content.Candidates, hx(highCandidate(w)))
